@@ -120,7 +120,13 @@ def correspondence(ctx):
                  "verify with an unreadable --intermediate-certs (missing file, directory). Every link of every chain is also checked for its "
                  "wrapper (legacy unless --use-dsse). dirs-through-symlinks: -d (run / record) and --link-dir (verify) are given as a symlink to the directory, a symlink with "
                  "trailing slash, a chain of two symlinks, or a relative path with .. segments (7 featured chains, a quarter of the random "
-                 "ones), with all tamperings as twins. sign-verify/duplicate-keyid: the layout signed with `sign`, a signed field edited, signed "
+                 "ones), with all tamperings as twins. Every fourth chain: artifact-names-with-glob-characters (files literally named report[1].txt, a*b, what?.txt next to siblings they "
+                 "match as patterns, passed with -m / -p to run and record and with --path to match-products), artifacts-named-like-links "
+                 "(10-eth0.link, notes.link.txt, x.link/ recorded via . and by name without any --exclude; a layout that REQUIREs 10-eth0.link "
+                 "verified honestly and after tampering with that file), in-place-rewrite-same-size-same-mtime (the command rewrites a "
+                 "material in place with the same size and restores its mtime; the product digest must be that of the bytes on disk). "
+                 "verify/no-layout-keys: --layout-keys \"\", \",\", \" \" and -k \"\" with the signed, unsigned and altered layout: non-zero, "
+                 "no inspection. sign-verify/duplicate-keyid: the layout signed with `sign`, a signed field edited, signed "
                  "again with the same key(s) (two entries per key id, stale first), the entries reversed by hand, legacy and DSSE: `sign "
                  "--verify` and `verify` must answer what the library answers on the same file. Directory shapes: the working directory of run/record, the metadata directory (-d, relative, absolute, "
                  "trailing slash), verify's working directory, link directory and layout file name are drawn from names with %, %s, %d, %2F, [1], "
